@@ -691,6 +691,43 @@ pub fn cases(tier: Tier) -> Vec<Case> {
             out.push(Case { f, flags: if i % 2 == 0 { vec!["-a"] } else { vec![] } });
         }
     }
+    // F6: command-line configuration (resolver, minimisation, restarts, nogood database limits,
+    // cumulative options) x a few conflict-rich models incl. cumulative x goals
+    let option_sets: Vec<Vec<&'static str>> = vec![
+        vec!["--no-restarts"],
+        vec!["--no-learning-minimise"],
+        vec!["--conflict-resolver", "no-learning"],
+        vec!["--learning-max-num-clauses", "1", "--learning-lbd-threshold", "0", "--learning-sorting-strategy", "lbd"],
+        vec!["--learning-max-num-clauses", "2", "--learning-sorting-strategy", "activity", "--restart-base-interval", "1", "--restart-min-initial-conflicts", "0", "--restart-sequence-generator-type", "luby"],
+        vec!["--restart-sequence-generator-type", "geometric", "--restart-base-interval", "1", "--restart-min-initial-conflicts", "0", "--restart-geometric-coef", "1.5"],
+        vec!["--cumulative-propagation-method", "time-table-per-point", "--cumulative-explanation-type", "naive"],
+        vec!["--cumulative-propagation-method", "time-table-per-point-incremental", "--cumulative-explanation-type", "pointwise", "--cumulative-allow-holes"],
+        vec!["--cumulative-propagation-method", "time-table-per-point-incremental-synchronised", "--cumulative-generate-sequence"],
+        vec!["--cumulative-propagation-method", "time-table-over-interval", "--cumulative-explanation-type", "pointwise"],
+        vec!["--cumulative-propagation-method", "time-table-over-interval-incremental", "--cumulative-incremental-backtracking", "--cumulative-allow-holes"],
+        vec!["--cumulative-propagation-method", "time-table-over-interval-incremental-synchronised", "--cumulative-explanation-type", "naive", "--cumulative-generate-sequence"],
+    ];
+    let find = |name: &str, nth: usize| insts.iter().filter(|c| c.name == name).nth(nth).unwrap().clone();
+    let rich: Vec<Vec<ConDecl>> = vec![
+        vec![find("pumpkin_cumulative", 1), find("int_lin_ne", 2), find("int_ne", 0)],
+        vec![find("pumpkin_cumulative", 0), find("int_lin_le_reif", 1), find("bool_clause", 1)],
+        vec![find("pumpkin_all_different", 0), find("int_times", 0), find("int_lin_eq", 0)],
+        vec![find("array_var_int_element", 0), find("int_abs", 1), find("bool2int", 0), find("pumpkin_bool_xor", 0)],
+    ];
+    for (ri, cons) in rich.iter().enumerate() {
+        for (oi, opts) in option_sets.iter().enumerate() {
+            if tier.quick() && (ri + oi) % 2 == 1 {
+                continue;
+            }
+            for (gi, goal) in [Goal::Satisfy, Goal::Minimize("x".into()), Goal::Maximize("x".into())].iter().enumerate() {
+                let mut fl: Vec<&'static str> = opts.clone();
+                if gi == 0 || (oi + gi) % 2 == 0 {
+                    fl.push("-a");
+                }
+                out.push(Case { f: model(cons.clone(), goal.clone(), String::new()), flags: fl });
+            }
+        }
+    }
     // F5: unsatisfiable models (at compile time, at the root, only after search) x goals x flags
     let c = |name: &'static str, args: Vec<Arg>| ConDecl { name, args };
     let unsat: Vec<Vec<ConDecl>> = vec![
@@ -807,7 +844,7 @@ impl Property for C13 {
     }
     fn rule(&self, tier: Tier) -> String {
         format!(
-            "Grammar-bounded enumeration of FlatZinc texts: {} instantiations covering every constraint name handled by the front end (arguments from 3 integer variables with range/set domains, 3 Boolean variables, constants, inline and named arrays, set literals); families: single constraint x goal {{satisfy, minimize, maximize}} x flags {{none, -a, -f, -a -f}} (+ --optimisation-strategy linear-unsat-sat), pairs of constraints (stride), declaration variants (one and two alias pairs, alias with a smaller domain, = constant, Boolean alias/fixed, variable arrays with output_array, parameter arrays, non-output variables), search annotations (int_search/bool_search/seq_search x {} variable x {} value selection names); {} files in total, each run through the real binary. Oracle: an independent evaluator of the builtins brute-forces the declared domains: every printed block is the projection of a solution; satisfy prints one block or the unsatisfiable marker exactly when there is none; with -a the printed SET equals the projection of all solutions and ========== follows; for minimize/maximize the last block before ========== is optimal; non-zero exit, panic or unparsable line is a violation. A case = one (file, flags); non-trivial = the model has some but not all assignments as solutions.",
+            "Grammar-bounded enumeration of FlatZinc texts: {} instantiations covering every constraint name handled by the front end (arguments from 3 integer variables with range/set domains, 3 Boolean variables, constants, inline and named arrays, set literals); families: single constraint x goal {{satisfy, minimize, maximize}} x flags {{none, -a, -f, -a -f}} (+ --optimisation-strategy linear-unsat-sat), pairs of constraints (stride), declaration variants (one and two alias pairs, alias with a smaller domain, = constant, Boolean alias/fixed, variable arrays with output_array, parameter arrays, scalar / set / Boolean-array parameters used in constraint arguments, set-domain aliases in both directions, Boolean fixed to false with an alias chain, several reified equalities of one variable joined by a clause, non-output variables), 8 unsatisfiable models (at compile time, at the root, after search) x goals x flags, 4 conflict-rich models x 12 command-line configurations (resolver, minimisation, restart policies, nogood database limits, all six cumulative propagation methods with explanation types / holes / sequence generation / incremental backtracking) x goals, search annotations (int_search/bool_search/seq_search x {} variable x {} value selection names); {} files in total, each run through the real binary. Oracle: an independent evaluator of the builtins brute-forces the declared domains: every printed block is the projection of a solution; satisfy prints one block or the unsatisfiable marker exactly when there is none; with -a the printed SET equals the projection of all solutions and ========== follows; for minimize/maximize the last block before ========== is optimal; non-zero exit, panic or unparsable line is a violation. A case = one (file, flags); non-trivial = the model has some but not all assignments as solutions.",
             constraint_instances().len(),
             VAR_SEL.len(),
             VAL_SEL.len(),
